@@ -69,6 +69,22 @@ def _worker(case):
         for s_, v in zip(leaves(), saved):
             s_.lam = v
         hist += ':' + st0
+    elif hist == 'refit-pen':
+        # the same object was fitted before with other penalty KINDS (same sizes, same lam): every penalty swapped for
+        # 'none' (a penalised one) or 'l2' (an unpenalised one) through the public term attribute, then put back
+        def leaves2():
+            for t in gam.terms:
+                if t.isintercept:
+                    continue
+                for s_ in (t._terms if t.istensor else [t]):
+                    yield s_
+        saved = [list(s_.penalties) for s_ in leaves2()]
+        for s_ in leaves2():
+            s_.penalties = ['l2' if p_ in (None, 'none') else 'none' for p_ in s_.penalties]
+        st0, _ = fitgen.fit_quiet(gam, X, y, w, **fkw)
+        for s_, v in zip(leaves2(), saved):
+            s_.penalties = v
+        hist += ':' + st0
     elif hist == 'refit-data':
         h = max(X.shape[0] // 2, 1)
         st0, _ = fitgen.fit_quiet(gam, X[:h], y[:h], None if w is None else w[:h], **({} if expo is None else dict(exposure=expo[:h])))
@@ -261,6 +277,11 @@ def run(ctx):
     # in every run: one badly scaled but well-posed design (raw timestamp in a linear term) per class / link pair
     cases += [dict(c, forced='huge-linear', feature_units='huge', history='none', constraints=False,
                    n_mode=('mid' if k_ % 2 else 'large'), lam_mode='default', y_scale=1.0)
+              for k_, c in enumerate(cases[:len(fitgen.PAIRS)])]
+    # in every run: each class / link pair once with a history before the judged fit (other penalty kinds, other lam,
+    # other data) on a plain, well-conditioned design with penalties that matter — where a stale factor is a failing input
+    cases += [dict(c, history=['refit-pen', 'refit-lam', 'refit-pen', 'refit-data'][k_ % 4], feature_units='plain', constraints=False,
+                   n_mode=('mid' if k_ % 2 else 'large'), lam_mode=('big' if k_ % 3 == 0 else 'default'), seed=c['seed'] + 1)
               for k_, c in enumerate(cases[:len(fitgen.PAIRS)])]
     with mp.get_context('fork').Pool(min(16, len(cases))) as pool:
         results = pool.map(_worker, cases, chunksize=1)
